@@ -88,6 +88,8 @@ type Step struct {
 	CreateOrOpen bool `json:"create_or_open,omitempty"` // reopen: with CreateOrOpen instead of ReOpenExisting
 	Nested *KOp   `json:"nested,omitempty"` // kv (Update, WriteUpdateWithXattrs, WriteSubDoc, SubdocInsert): another call on the same key,
 	// made through another handle inside the window between the call's read and its compare-and-swap write
+	WinColl string `json:"wincoll,omitempty"` // expire: the sweep is held between its query of this collection and its removals (hook expiry.window) ...
+	Win    []Step `json:"win,omitempty"`     // ... while these calls are made
 }
 
 type ViewDef struct {
@@ -266,6 +268,32 @@ type kvRun struct {
 	curCas   map[string]uint64 // (coll/key) -> CAS at the last read-back (0: no row)
 	curXs    map[string]map[string]string // (coll/key) -> xattrs at the last read-back
 	lostUpdate string          // an optimistic write accepted on top of a version its callback was never shown
+	sweep    *sweepRun         // an expiry sweep held in its window (nil: none)
+	fakeNext *uint64           // while a sweep is held the expiry manager is locked and cannot be read: what has been asked of it
+	winG     int64             // the goroutine making a call inside the sweep's window
+	winCommitted int32         // that call has committed a transaction
+	lastDrained []sgbucket.FeedEvent // the events the last collectLive returned
+}
+
+// An expiry sweep held between its query of one collection and its removals.
+type sweepRun struct {
+	gid     int64
+	idx     int // which collection's window, in the order of ListDataStores
+	seen    int
+	keys    []string
+	open    chan struct{}
+	release chan struct{}
+}
+
+// scheduleExpirationAtOrBefore, as the model has it (Store.sched)
+func schedNext(next, e uint64) uint64 {
+	if e == 0 {
+		return next
+	}
+	if next == 0 || e < next {
+		return e
+	}
+	return next
 }
 
 // A call made inside another call's read-to-write window.  The enclosing call is a compare-and-swap loop,
@@ -433,6 +461,7 @@ func (k *kvRun) collectLive(expectPosted int64) []any {
 		lf.mu.Unlock()
 	}
 	var out []any
+	k.lastDrained = k.lastDrained[:0]
 	for {
 		best := -1
 		for i, l := range lists {
@@ -444,6 +473,7 @@ func (k *kvRun) collectLive(expectPosted int64) []any {
 			break
 		}
 		out = append(out, feventTerm(lists[best][0]))
+		k.lastDrained = append(k.lastDrained, lists[best][0])
 		lists[best] = lists[best][1:]
 	}
 	return out
@@ -628,7 +658,14 @@ func (k *kvRun) snapshot() (Term, error) {
 			rowTerms = append(rowTerms, P(P(S(cn), S(key)), C("mkObs", get, exp, doc, B(ex), dump)))
 		}
 	}
-	return C("mkSnap", L(collTerms...), L(rowTerms...), L(orderTerms...), L(P(S("nextExp"), N(uint64(k.handles[0].VerifNextExp()))))), nil
+	return C("mkSnap", L(collTerms...), L(rowTerms...), L(orderTerms...), L(P(S("nextExp"), N(k.nextExp())))), nil
+}
+
+func (k *kvRun) nextExp() uint64 {
+	if k.fakeNext != nil {
+		return *k.fakeNext
+	}
+	return uint64(k.handles[0].VerifNextExp())
 }
 
 func (k *kvRun) resolveCas(mode, coll, key string) uint64 {
@@ -1310,6 +1347,21 @@ func execKvInner(in kvInput, scratch string, prog *kvProgress) (Case, error) {
 			if w := k.win; w != nil && !w.busy {
 				w.begins++
 			}
+		case "txn.committed":
+			if g := atomic.LoadInt64(&k.winG); g != 0 && g == goid() && len(args) > 1 && args[1] == nil {
+				atomic.StoreInt32(&k.winCommitted, 1)
+			}
+		case "expiry.window":
+			if w := k.sweep; w != nil && w.gid == goid() {
+				w.seen++
+				if w.seen-1 == w.idx {
+					if len(args) > 1 {
+						w.keys, _ = args[1].([]string)
+					}
+					close(w.open)
+					<-w.release
+				}
+			}
 		case "expiry.fire":
 			// the history decides when the expiry timer fires (steps of kind "expire" call the timer's
 			// callback synchronously); a firing of the real timer is parked for the rest of the process
@@ -1675,10 +1727,216 @@ func execKvInner(in kvInput, scratch string, prog *kvProgress) (Case, error) {
 			}
 			k.cells["query|"+st.Q] = true
 		case "expire":
-			opT = C("SExpire")
-			atomic.StoreInt64(&k.manualExpiry, goid())
-			k.handles[0].VerifRunExpiry()
+			exist, order, err := k.existingColls()
+			if err != nil {
+				return c, err
+			}
+			if st.WinColl == "" || !exist[st.WinColl] {
+				opT = C("SExpire")
+				atomic.StoreInt64(&k.manualExpiry, goid())
+				k.handles[0].VerifRunExpiry()
+				atomic.StoreInt64(&k.manualExpiry, 0)
+				respT = C("ROk")
+				break
+			}
+			// The sweep is held between its query of collection WinColl and its removals; the calls of st.Win are made
+			// meanwhile.  The history records: SExpireScan (what the query returned), the calls, SExpireK (the rest).
+			sw := &sweepRun{open: make(chan struct{}), release: make(chan struct{})}
+			for j, n := range order {
+				if n == st.WinColl {
+					sw.idx = j
+				}
+			}
+			pre := uint64(k.handles[0].VerifNextExp())
+			sweepDone := make(chan any, 1)
+			gidCh := make(chan int64, 1)
+			go func() {
+				defer func() { sweepDone <- recover() }()
+				g := goid()
+				sw.gid = g
+				k.sweep = sw
+				atomic.StoreInt64(&k.manualExpiry, g)
+				gidCh <- g
+				k.handles[0].VerifRunExpiry()
+			}()
+			<-gidCh
+			select {
+			case <-sw.open:
+			case r := <-sweepDone:
+				if r != nil {
+					panic(r)
+				}
+				return c, fmt.Errorf("the sweep ended without reaching the window of %s", st.WinColl)
+			case <-time.After(10 * time.Second):
+				c.Fatal = fmt.Sprintf("the expiry sweep did not reach the window of %s within 10s (step %d)", st.WinColl, i)
+				return c, nil
+			}
+			fake := pre
+			k.fakeNext = &fake
+			sctxAt := func(clock uint64, now int64) Term { return C("mkSctx", N(clock), N(uint64(now)), N(uint64(in.MaxDoc))) }
+			{
+				var rows []any
+				for _, key := range sw.keys {
+					rows = append(rows, S(key))
+				}
+				live := k.collectLive(atomic.LoadInt64(&k.posted))
+				snap, err := k.snapshot()
+				if err != nil {
+					return c, err
+				}
+				steps = append(steps, P(sctxAt(st.Clock, now0), C("SExpireScan", S(st.WinColl))))
+				obs = append(obs, C("mkOstep", C("RRows", L(rows...)), L(live...), L(), snap))
+				k.cells[fmt.Sprintf("sweepwin|scan|%d", len(sw.keys))] = true
+			}
+			type winCall struct {
+				opT, respT Term
+				err        error
+			}
+			type pendingCall struct {
+				ch         chan winCall
+				posS, posO int // where its step and its observation are
+				sctx       Term
+				live       []any
+				snap       Term
+			}
+			var parkedCalls []pendingCall
+			var parkedExps []any
+			for _, ws := range st.Win {
+				if ws.Kind != "kv" || ws.Op == nil || !exist[ws.Coll] {
+					continue
+				}
+				if ws.Handle >= nh {
+					ws.Handle = 0
+				}
+				atomic.StoreUint64(&k.clock, ws.Clock)
+				wnow := time.Now().Unix()
+				postedBefore := atomic.LoadInt64(&k.posted)
+				atomic.StoreInt32(&k.winCommitted, 0)
+				ch := make(chan winCall, 1)
+				started := make(chan struct{})
+				go func(ws Step) {
+					atomic.StoreInt64(&k.winG, goid())
+					close(started)
+					kt, rt, err := k.doKv(ws)
+					ch <- winCall{C("SKv", S(ws.Coll), S(ws.Key), kt), rt, err}
+				}(ws)
+				<-started
+				isTouch := ws.Op.Kind == "Touch" || ws.Op.Kind == "GetAndTouchRaw"
+				var res *winCall
+				parked := false
+				var live []any
+				waitUntil := time.Now().Add(10 * time.Second)
+				for res == nil && !parked {
+					select {
+					case r := <-ch:
+						res = &r
+						continue
+					default:
+					}
+					if atomic.LoadInt64(&k.posted) > postedBefore {
+						// the call has posted its event: if the event carries an expiry the call now waits for the expiry manager
+						live = k.collectLive(atomic.LoadInt64(&k.posted))
+						var exp uint32
+						for _, ev := range k.lastDrained {
+							if string(ev.Key) == ws.Key {
+								exp = ev.Expiry
+							}
+						}
+						if exp != 0 {
+							parked = true
+							fake = schedNext(fake, uint64(exp))
+							parkedExps = append(parkedExps, N(uint64(exp)))
+						} else {
+							select {
+							case r := <-ch:
+								res = &r
+							case <-time.After(10 * time.Second):
+								c.Fatal = fmt.Sprintf("a %s inside the sweep's window did not return (step %d)", ws.Op.Kind, i)
+								return c, nil
+							}
+						}
+						continue
+					}
+					if isTouch && ws.Op.Exp != 0 && atomic.LoadInt32(&k.winCommitted) == 1 {
+						// a touch posts no event; with an expiry to announce it waits for the expiry manager after its commit
+						parked = true
+						if wc, err := k.coll(0, ws.Coll); err == nil {
+							if e, err := wc.GetExpiry(ctxBg, ws.Key); err == nil {
+								fake = schedNext(fake, uint64(e))
+								parkedExps = append(parkedExps, N(uint64(e)))
+							}
+						}
+						continue
+					}
+					if time.Now().After(waitUntil) {
+						c.Fatal = fmt.Sprintf("a %s inside the sweep's window neither returned nor posted within 10s (step %d)", ws.Op.Kind, i)
+						return c, nil
+					}
+					time.Sleep(200 * time.Microsecond)
+				}
+				atomic.StoreInt64(&k.winG, 0)
+				if res != nil && res.err != nil {
+					return c, res.err
+				}
+				if live == nil {
+					live = k.collectLive(atomic.LoadInt64(&k.posted))
+				}
+				if res != nil && isTouch && res.respT["c"] != "RErr" {
+					if wc, err := k.coll(0, ws.Coll); err == nil {
+						if e, err := wc.GetExpiry(ctxBg, ws.Key); err == nil {
+							fake = schedNext(fake, uint64(e))
+						}
+					}
+				}
+				snap, err := k.snapshot()
+				if err != nil {
+					return c, err
+				}
+				var wopT, wrespT Term
+				if res != nil {
+					wopT, wrespT = res.opT, res.respT
+				}
+				steps = append(steps, P(sctxAt(ws.Clock, wnow), wopT))
+				obs = append(obs, C("mkOstep", wrespT, L(live...), L(), snap))
+				if parked {
+					parkedCalls = append(parkedCalls, pendingCall{ch, len(steps) - 1, len(obs) - 1, sctxAt(ws.Clock, wnow), live, snap})
+				}
+				k.cells[fmt.Sprintf("sweepwin|%s|parked=%v", ws.Op.Kind, parked)] = true
+			}
+			// let the sweep go on
+			atomic.StoreUint64(&k.clock, st.Clock)
+			k.fakeNext = nil
+			close(sw.release)
+			select {
+			case r := <-sweepDone:
+				if r != nil {
+					panic(r)
+				}
+			case <-time.After(10 * time.Second):
+				c.Fatal = fmt.Sprintf("the expiry sweep did not finish within 10s of being let go (step %d)", i)
+				return c, nil
+			}
+			k.sweep = nil
 			atomic.StoreInt64(&k.manualExpiry, 0)
+			for _, pc := range parkedCalls {
+				select {
+				case r := <-pc.ch:
+					if r.err != nil {
+						return c, r.err
+					}
+					// the call's answer is known only now; its step was recorded when it took effect
+					steps[pc.posS] = P(pc.sctx, r.opT)
+					obs[pc.posO] = C("mkOstep", r.respT, L(pc.live...), L(), pc.snap)
+				case <-time.After(10 * time.Second):
+					c.Fatal = fmt.Sprintf("a call parked behind the expiry sweep did not return after it (step %d)", i)
+					return c, nil
+				}
+			}
+			var keyTerms []any
+			for _, key := range sw.keys {
+				keyTerms = append(keyTerms, S(key))
+			}
+			opT = C("SExpireK", S(st.WinColl), L(keyTerms...), L(parkedExps...))
 			respT = C("ROk")
 		case "reopen":
 			if !in.OnDisk {
